@@ -145,7 +145,8 @@ def run(ctx):
     R.ob('C11.capacity', ('client table', 'single registration site'), len(isites) == 1 and any(isites[0][0].id == x.id for x in reach),
          'the table grows only at the transmission site fed by that dequeue', [g.loc(t) for g, _, t in isites])
     for g, bb, t in isites:
-        kr = P.root(P.operand(g, t['args'][1], at=bb))
+        from .common import lifter
+        kr = P.root(lifter(F, P, reach)(g, P.operand(g, t['args'][1], at=bb)))
         ok = bool(kr) and all(P.unbound(r)[0] == 'call' and (P.unbound(r)[1], P.unbound(r)[2]) in {(x.id, b2) for x, b2, _ in deq} for r, _ in kr)
         R.ob('C11.capacity', ('dispatch poll', 'registered request is the one dequeued under the fact'), ok,
              'the request registered is the item of that guarded dequeue (one registration per dequeue, none in between)', [g.loc(t)])
